@@ -44,6 +44,14 @@ def gen_case(rng):
                         entries.append({"p": q, "kind": "fifo"})
                     else:
                         entries.append({"p": q, "kind": "symlink", "target": "g1"})
+                # names with a backslash (an ordinary character in a file name here) next to a directory / file pair that the same
+                # name would denote if the backslash were a separator
+                if rng.chance(1, 3):
+                    entries.append({"p": f"{p}/a", "kind": "dir"})
+                    entries.append({"p": f"{p}/a/b", "kind": "file", "n": 3})
+                    entries.append({"p": f"{p}/a\\b", "kind": "file", "n": 10})
+                    if rng.chance(1, 2):
+                        entries.append({"p": f"{p}/notes\\2024.txt", "kind": "file", "n": 7})
                 # a sub-directory next to siblings whose names continue its name with a byte below '/': walking order and sorted
                 # order of the full paths differ there
                 if rng.chance(1, 2):
